@@ -278,16 +278,43 @@ Proof.
   - exact span_ord_pieces.
 Qed.
 
-(* ---------- FINDING F34: harper-typst emits the transform of a show rule BEFORE its selector (and the condition of a set rule
-   before its arguments).  The document of the Typst text   #show "the": [the]   is [Word 14..17; Word 7..10]: two neighbouring
-   words of one chunk with nothing between them, so RepeatedWords reaches Span::new(14, 10).  The model of the site on exactly
-   these tokens panics; the premise span_ord fails on them. ---------- *)
-Definition typst_show_tokens : list tok := [w 14 17; w 7 10].
-Theorem span_new_unordered_refuted :
-  exists chunk, repeated_words_spans chunk = Panic PSpanOrder /\ ~ span_ord (flag F_WORD) chunk /\
-                Forall (fun t => sstart (tspan t) <= send (tspan t) /\ send (tspan t) <= 18) chunk.
+(* ---------- HISTORY, finding F34 (fixed in /repo by 3103238 "the Typst translator emits tokens in source order"): before the
+   fix harper-typst emitted the transform of a show rule BEFORE its selector (and the condition of a set rule before its
+   arguments).  The document of the Typst text   #show "the": [the]   was [Word 14..17; Word 7..10]: two neighbouring words of
+   one chunk with nothing between them, so RepeatedWords reached Span::new(14, 10) and panicked (span.rs:19).  The model of the
+   site on the OLD token order panics; on the order the translator emits NOW ([Word 7..10; Word 14..17]) the premise holds and
+   the site returns.  Since the fix span_ord is observed on every front-end (monitor span_order_violations = 0). ---------- *)
+Definition typst_show_tokens_old : list tok := [w 14 17; w 7 10].
+Definition typst_show_tokens : list tok := [w 7 10; w 14 17].
+Lemma span_new_typst_old_order_history :
+  (repeated_words_spans typst_show_tokens_old = Panic PSpanOrder /\ ~ span_ord (flag F_WORD) typst_show_tokens_old /\
+   Forall (fun t => sstart (tspan t) <= send (tspan t) /\ send (tspan t) <= 18) typst_show_tokens_old) /\
+  (span_ord (flag F_WORD) typst_show_tokens /\ repeated_words_spans typst_show_tokens = Ok tt).
 Proof.
-  exists typst_show_tokens. split; [vm_compute; reflexivity|]. split.
+  split; [split; [vm_compute; reflexivity|split]|split].
+  - intros [O _]. cbn in O. lia.
+  - repeat constructor; cbn; lia.
+  - split; [cbn; repeat split; lia|]. rewrite Forall_forall. intros t [<-|[<-|[]]] _; unfold cov; cbn; lia.
+  - apply repeated_words_spans_total. split; [cbn; repeat split; lia|]. rewrite Forall_forall. intros t [<-|[<-|[]]] _; unfold cov; cbn; lia.
+Qed.
+
+(* ---------- HISTORY, finding F35 (residue of F34; fixed in /repo by b629a93 "Typst::parse drops tokens that repeat source text
+   already tokenised"): on an UNFINISHED show rule typst_syntax's ShowRule::transform() falls back to the selector, and before the
+   fix harper-typst emitted the selector's tokens twice.  The document of the Typst text   #show "the the":   was
+   [the 7..10; space 10..11; the 11..14; the 7..10; space 10..11; the 11..14]: the Word 11..14 directly followed by the Word 7..10,
+   RepeatedWords reached Span::new(11, 10) and panicked (span.rs:19).  The model of the site panics on the OLD tokens (inside the
+   16-char text; span_ord fails); on the tokens Typst::parse keeps NOW (the first copy only) span_ord holds and the site returns. ---------- *)
+Definition sp (a b : nat) : tok := mktok (mkspan a b) 2 2 0.      (* a space: flag bit 1 = F_WS *)
+Definition typst_unfinished_show_tokens_old : list tok := [w 7 10; sp 10 11; w 11 14; w 7 10; sp 10 11; w 11 14].
+Definition typst_unfinished_show_tokens : list tok := [w 7 10; sp 10 11; w 11 14].
+Lemma span_new_typst_unfinished_history :
+  (repeated_words_spans typst_unfinished_show_tokens_old = Panic PSpanOrder /\ ~ span_ord (flag F_WORD) typst_unfinished_show_tokens_old /\
+   Forall (fun t => sstart (tspan t) <= send (tspan t) /\ send (tspan t) <= 16) typst_unfinished_show_tokens_old) /\
+  (span_ord (flag F_WORD) typst_unfinished_show_tokens /\ repeated_words_spans typst_unfinished_show_tokens = Ok tt).
+Proof.
+  assert (span_ord (flag F_WORD) typst_unfinished_show_tokens) as H.
+  { split; [cbn; repeat split; lia|]. rewrite Forall_forall. intros t [<-|[<-|[<-|[]]]] _; unfold cov; cbn; lia. }
+  split; [split; [vm_compute; reflexivity|split]|split; [exact H|exact (repeated_words_spans_total _ H)]].
   - intros [O _]. cbn in O. lia.
   - repeat constructor; cbn; lia.
 Qed.
